@@ -156,6 +156,22 @@ pub struct ExtProp {
     pub property: &'static str,
 }
 
+/// Open known finding `solve:panic:format_time@required-break`: the f64::MAX sentinel of the reserved-time activity cost
+/// reaches the solution writer. `Ok(())` = it is that finding and it is listed as open (counted, the case is skipped);
+/// otherwise the failure comes back, under the specific signature when the circumstances are those of the finding.
+fn required_break_panic(property: &str, rendered: &Rendered, f: Failure, stats: &Stats) -> Result<(), Failure> {
+    const SIG: &str = "solve:panic:format_time@required-break";
+    let has_required_break = rendered.problem.fleet.vehicles.iter().any(|v| v.shifts.iter().any(|s| s.breaks.iter().flatten().any(|b| matches!(b, api::VehicleBreak::Required { .. }))));
+    if has_required_break && f.signature.starts_with("solve:panic:") && f.message.contains("format_time") {
+        if known_open(property, SIG) {
+            stats.known_hit(SIG);
+            return Ok(());
+        }
+        return Err(Failure::new(SIG, f.message));
+    }
+    Err(f)
+}
+
 impl ExtProp {
     /// the extended problem of a case (None: no extension applicable)
     pub fn build_opt(&self, case: &ExtCase, stats: &Stats) -> Result<Option<Rendered>, Failure> {
@@ -185,7 +201,15 @@ impl ExtProp {
         }
         read_core(&rendered.problem, &rendered.matrices).map_err(|e| Failure::new("harness:generator-invalid", format!("generated extended problem was rejected: {e}\n{}", serde_json::to_string(&rendered.problem).unwrap_or_default())))?;
         if let Some(picks) = case.ext.relations.as_ref() {
-            if let Some((locked, _)) = with_witness_relations(&rendered, picks, stats)? {
+            // the witness solve is a solve of the extended problem: the open required-break finding applies to it as well
+            let witness = match with_witness_relations(&rendered, picks, stats) {
+                Ok(w) => w,
+                Err(f) => match required_break_panic(self.property, &rendered, f, stats) {
+                    Ok(()) => return Ok(None),
+                    Err(f) => return Err(f),
+                },
+            };
+            if let Some((locked, _)) = witness {
                 rendered = locked;
                 rendered.info.features.push("ext_relations".to_string());
             }
@@ -226,16 +250,12 @@ impl Prop for ExtProp {
         let Some(rendered) = self.build_opt(case, stats)? else { return Ok(()) };
         let core = read_core(&rendered.problem, &rendered.matrices).map_err(|e| Failure::new("harness:generator-invalid-relations", format!("extended problem with relations read off its own solution was rejected: {e}\n{}", serde_json::to_string(&rendered.problem.plan.relations).unwrap_or_default())))?;
         let cfg = render_config(&case.config);
-        let has_required_break = rendered.problem.fleet.vehicles.iter().any(|v| v.shifts.iter().any(|s| s.breaks.iter().flatten().any(|b| matches!(b, api::VehicleBreak::Required { .. }))));
         let (solution, text) = match solve_to_solution(core, &cfg) {
             Ok(x) => x,
-            // open known finding: the f64::MAX sentinel of the reserved-time activity cost reaches the solution writer
-            Err(f) if has_required_break && f.signature.starts_with("solve:panic:") && f.message.contains("format_time") && known_open(self.property, "solve:panic:format_time@required-break") => {
-                stats.known_hit("solve:panic:format_time@required-break");
-                return Ok(());
-            }
-            Err(f) if has_required_break && f.signature.starts_with("solve:panic:") && f.message.contains("format_time") => return Err(Failure::new("solve:panic:format_time@required-break", f.message)),
-            Err(f) => return Err(f),
+            Err(f) => match required_break_panic(self.property, &rendered, f, stats) {
+                Ok(()) => return Ok(()),
+                Err(f) => return Err(f),
+            },
         };
         let verdict = refmodel::evaluate(&rendered.problem, &rendered.matrices, &solution, tolerance(&rendered.problem));
         stats.eval();
